@@ -7,6 +7,7 @@ caption's. A sentinel second caption makes lost / merged / split cues observable
 """
 import itertools
 
+from mc import shared
 from mc.acc import Acc
 from mc.ref import parsers
 
@@ -126,7 +127,7 @@ def writer_obj(name):
     import pycaption
     from pycaption.dfxp import extras
 
-    return (getattr(pycaption, name, None) or getattr(extras, name))()
+    return shared.obj(getattr(pycaption, name, None) or getattr(extras, name))
 
 
 def parse_output(wname, doc):
@@ -249,9 +250,24 @@ def visible(s):
     return parsers.norm_line(s) != ""
 
 
+def reuse_items():
+    items = []
+    ls = line_set(2)
+    for i, ln in enumerate(ls[::23]):
+        for w in WRITERS:
+            if w == "MicroDVDWriter" and "|" in ln:
+                continue
+            items.append((w, [("t", ln)] if i % 3 else items_from_lines([ln, "word"], (i % 3, (i // 3) % 3, 0), "break")))
+    return items
+
+
+def reuse_eval(item):
+    return evaluate(item[0], item[1], do_min=False)
+
+
 def shards(tier, seed):
     b = bounds(tier)
-    sh = []
+    sh = [{"k": "reuse", "w": None}]
     for w in WRITERS:
         nparts = (2 if tier == "quick" else 24) if w not in ("SRTWriter", "WebVTTWriter", "MicroDVDWriter") else (1 if tier == "quick" else 4)
         for part in range(nparts):
@@ -265,6 +281,9 @@ def shards(tier, seed):
 
 def run_shard(d):
     acc = Acc()
+    if d["k"] == "reuse":
+        shared.run(acc, reuse_items(), reuse_eval, sample=lambda it: {"reuse_run_step": [it[0], it[1]]})
+        return acc.result()
     w = d["w"]
     if d["k"] == "single":
         for i, ln in enumerate(line_set(d["n"])):
@@ -297,6 +316,8 @@ def run_shard(d):
 
 
 def replay(case):
+    if case.get("reuse"):
+        return shared.replay(reuse_items(), reuse_eval, case["index"])
     items = [tuple(i) for i in case["items"]]
     v, _ = evaluate(case["w"], items)
     return [{"sig": s, "detail": d} for s, d in v]
